@@ -36,6 +36,8 @@ CONSTANTS Peers,        \* lifecycle peers, e.g. {"p1"} or {"p1", "p2"}
           DevD6,        \* TRUE: GRAFT is admitted although the sender has no outbound stream (gs.peers)
           DevD7,        \* TRUE: pubsub:<topic> protection survives the removal from the mesh on outbound close
           DevD14,       \* TRUE: a verdict leaving validation when no stream is left recreates gater stats
+          DevRefusedGraft, \* TRUE (a seeded variant): a GRAFT refused because the mesh is full still fires the Graft trace event, so the
+                        \*       sender is protected in the connection manager although it never enters the mesh (nothing unprotects it)
           DevGiveUp     \* TRUE (a seeded variant, not the code as found): handleDeadPeers stores the respawned writer's queue in
                         \*       pubsub.peers BEFORE asking the dead-peer backoff, so that it stays when the backoff gives the peer up
 
@@ -48,8 +50,8 @@ VARIABLES ps,           \* ps[p] = per-peer record (see InitPeer)
 vars == <<ps, router, pubd, elapsed, hist>>
 
 SendKinds == {"sub1", "sub2", "unsub1", "graft", "prune", "prunepx", "ihave", "iwant",
-              "idontwant", "ext", "pubv", "pubi", "pubslow", "pgflood"}
-CtlKinds  == {"graft", "prune", "prunepx", "ihave", "iwant", "idontwant", "ext", "pgflood"}
+              "idontwant", "ext", "pubv", "pubi", "pubslow", "pgflood", "graftx"}
+CtlKinds  == {"graft", "prune", "prunepx", "ihave", "iwant", "idontwant", "ext", "pgflood", "graftx"}
 PeerEvents == {"ConnUp", "OutUp", "OutFail", "OutReset", "InUp", "InDup", "InReset", "InEOF",
                "Send", "Blacklist", "ConnDown"}
 GlobalEvents == {"NodePub", "Hb", "Wait"}
@@ -88,12 +90,16 @@ Applicable(r) == IF r = "gossipsub" THEN Core \cup GsOnly
                  ELSE IF r = "randomsub" THEN Core \cup {"randomsub.peers"} ELSE Core
 
 (* ------------------------------------------------------------------ per-peer state *)
-InitPeer(proto, pos) ==
+InitPeer(proto, pos, refuse, neg) ==
     [conn |-> FALSE,     \* a connection exists
      out  |-> "none",    \* the node's outbound stream: none | pend (NewStream in flight) | up | failed
      inb  |-> FALSE,     \* the node has an inbound stream of the peer
      bl   |-> FALSE,     \* blacklisted
      proto |-> proto,
+     refuse |-> refuse,  \* a GRAFT of this peer is refused for a reason that lasts: direct peer, or the mesh is full (Dhi reached;
+                         \* here a bootstrapper-style node with Dhi = 0) and the peer dialled us
+     neg  |-> neg,       \* negative application score: a GRAFT is refused while the node keeps score statistics of the peer (it
+                         \* certainly does while its outbound stream is up; a peer without statistics scores 0)
      pos  |-> pos,       \* score > 0: forgotten at disconnect; otherwise retained for RetainScore
      attLo |-> 0,        \* dead-peer backoff attempts used up for certain (outbound streams that died on a live connection)
      attHi |-> 0,        \* ... and at most (a plain disconnect counts when the node sees the stream die before the connection)
@@ -114,8 +120,9 @@ Flag(s, d)  == [s EXCEPT !.dev = @ \cup {d}]
 \* intended (D7 repaired): the removal from the mesh also drops the pubsub:<topic> protection
 OutDown(s) ==
     LET d7 == CProt \in s.K \/ "D6" \in s.dev      \* (a peer admitted by D6 is protected as well)
+        rg == DevRefusedGraft /\ "RG" \in s.dev       \* (OnClosedOutboundStream unprotects mesh members only)
         rm == OutClears \cup {"pubsub.peers"} \cup (IF s.pos THEN ScoreKeys ELSE {})
-                        \cup (IF d7 /\ DevD7 THEN {} ELSE {CProt})
+                        \cup (IF (d7 /\ DevD7) \/ rg THEN {} ELSE {CProt})
         \* leaving the mesh / dropping the gater entry here also ends a D6 / D14 situation
         s1 == [s EXCEPT !.K = @ \ rm, !.subs = {}, !.dev = @ \ {"D6", "D14"}]
     IN  IF d7 THEN Flag(s1, "D7") ELSE s1
@@ -159,15 +166,20 @@ SendEv(s, k) ==
       [] k = "sub2"   -> [s0 EXCEPT !.subs = @ \cup {"t2"}]
       [] k = "unsub1" -> [s0 EXCEPT !.subs = @ \ {"t1"}]
       [] k = "graft"  -> \* handleGraft; intended (D6 repaired): only a peer with an outbound stream is admitted
-            LET adm == s.out = "up" \/ DevD6
-                s1  == Add(s0, {"gs.backoff"} \cup (IF adm THEN {CMesh, CProt} ELSE {}))
-            IN  IF s.out # "up" THEN Flag(s1, "D6") ELSE s1
+            \* and not a direct peer, not a peer with a negative score, not a peer that dialled us when the mesh is full: those
+            \* are answered with a PRUNE (and a backoff), the Graft trace event - protection, score inMesh - is not fired
+            IF s.refuse \/ (s.neg /\ s.out = "up")
+              THEN IF DevRefusedGraft THEN Flag(Add(s0, {"gs.backoff", CProt}), "RG") ELSE Add(s0, {"gs.backoff"})
+              ELSE LET adm == s.out = "up" \/ DevD6
+                       s1  == Add(s0, {"gs.backoff"} \cup (IF adm THEN {CMesh, CProt} ELSE {}))
+                   IN  IF s.out # "up" THEN Flag(s1, "D6") ELSE s1
+      [] k = "graftx" -> s0       \* GRAFT for a topic the node has not joined: ignored
       [] k \in {"prune", "prunepx"} -> \* handlePrune: out of the mesh, tracer.Prune unprotects (also ends a D6 / D7 situation)
-            [Add(Del(s0, {CMesh, CProt}), {"gs.backoff"}) EXCEPT !.dev = @ \ {"D6", "D7"}]
+            [Add(Del(s0, {CMesh, CProt}), {"gs.backoff"}) EXCEPT !.dev = @ \ {"D6", "D7", "RG"}]
       [] k = "pgflood" -> \* a PRUNE and then GRAFTs inside the backoff while the peer does not read: the node's PRUNE replies
                           \* overflow its outbound queue and are kept for retry in gs.control (a queue exists while pend / up)
             [Add(Del(s0, {CMesh, CProt}), {"gs.backoff"} \cup (IF s.out \in {"pend", "up"} THEN {"gs.control"} ELSE {}))
-               EXCEPT !.dev = @ \ {"D6", "D7"}]
+               EXCEPT !.dev = @ \ {"D6", "D7", "RG"}]
       [] k = "ihave"  -> Add(s0, {"gs.iasked", "gossipTracer.promises", "gossipTracer.peerPromises"})
       [] k = "iwant"  -> Add(s0, {"gs.mcache.peertx"})
       [] k = "idontwant" -> Add(s0, {"gs.unwanted", "gs.peerdontwant"})
@@ -229,7 +241,7 @@ GlobalEv(s, e, pd) ==
 
 (* ------------------------------------------------------------------ machine *)
 Init == /\ router \in Routers
-        /\ ps \in [Peers -> {InitPeer(pr, po) : pr \in Protos, po \in BOOLEAN}]
+        /\ ps \in [Peers -> {x \in {InitPeer(pr, po, rf, ng) : pr \in Protos, po \in BOOLEAN, rf \in BOOLEAN, ng \in BOOLEAN} : ~(x.neg /\ x.pos)}]
         /\ pubd = FALSE /\ elapsed = FALSE /\ hist = <<>>
 
 AllGone == \A p \in Peers : Gone(ps[p])
@@ -306,7 +318,7 @@ Emit == (AllGone /\ ~elapsed /\ Len(hist) > 0 /\ hist[Len(hist)].e = "ConnDown")
            => PrintT(<<"SCN", ToJson([evs |-> hist])>>)
 \* generator runs do not care about protocol or score: one initial state
 GenInit == /\ router = "gossipsub"
-           /\ ps = [p \in Peers |-> InitPeer("v11", FALSE)]
+           /\ ps = [p \in Peers |-> InitPeer("v11", FALSE, FALSE, FALSE)]
            /\ pubd = FALSE /\ elapsed = FALSE /\ hist = <<>>
 GenNext == ~elapsed /\ Next /\ ~elapsed'
 GenSpec == GenInit /\ [][GenNext]_vars
